@@ -28,3 +28,8 @@ def fields(data):
     """the six fields of a decodable line"""
     parts = line_fields(data)
     return (int_of(parts[0]), int_of(parts[1]), int_of(parts[2]), int_of(parts[3]), int_of(parts[4]), parts[5])
+
+
+def addressed(line, n):
+    """the line is a command for node n"""
+    return decodable(line) and fields(line)[0] == n
